@@ -222,15 +222,45 @@ var deadAddr = &net.TCPAddr{IP: net.IPv4(127, 0, 0, 1), Port: 1}
 type vhost struct {
 	types.Host
 	mu      sync.Mutex
-	fail    bool
+	fail    int // 0 dial normally, 1 connection refused (api.ConnectFailed), 2 dial times out (api.ConnectTimeout)
 	created []types.ClientConnection
 }
+
+const (
+	dialOK = iota
+	dialRefused
+	dialTimeout
+)
+
+// timeoutConn replays what network.clientConnection.Connect does when the dial times out (event
+// api.ConnectTimeout to every registered listener, error returned) without waiting for a real timer.
+type timeoutConn struct {
+	types.ClientConnection
+	cbs []api.ConnectionEventListener
+}
+
+func (t *timeoutConn) AddConnectionEventListener(cb api.ConnectionEventListener) {
+	t.cbs = append(t.cbs, cb)
+	t.ClientConnection.AddConnectionEventListener(cb)
+}
+func (t *timeoutConn) Connect() error {
+	for _, cb := range t.cbs {
+		cb.OnEvent(api.ConnectTimeout)
+	}
+	return errDialTimeout
+}
+
+var errDialTimeout = fmt.Errorf("dial tcp: i/o timeout (scripted)")
 
 func (h *vhost) CreateConnection(ctx context.Context) types.CreateConnectionData {
 	h.mu.Lock()
 	defer h.mu.Unlock()
-	if h.fail {
+	switch h.fail {
+	case dialRefused:
 		c := network.NewClientConnection(time.Second, nil, deadAddr, nil)
+		return types.CreateConnectionData{Connection: c, Host: h}
+	case dialTimeout:
+		c := &timeoutConn{ClientConnection: network.NewClientConnection(time.Second, nil, deadAddr, nil)}
 		return types.CreateConnectionData{Connection: c, Host: h}
 	}
 	d := h.Host.CreateConnection(ctx)
@@ -297,10 +327,15 @@ type cliRec struct {
 	conn     types.ClientConnection
 	up       *upConn
 	closeEvs int32 // close events seen by a listener registered AFTER the pool's listeners
+	mu       sync.Mutex
+	lastEv   api.ConnectionEvent
 }
 
 func (c *cliRec) OnEvent(e api.ConnectionEvent) {
 	if e.IsClose() {
+		c.mu.Lock()
+		c.lastEv = e
+		c.mu.Unlock()
 		atomic.AddInt32(&c.closeEvs, 1)
 	}
 }
@@ -414,15 +449,15 @@ func (w *world) registerNewClients() {
 	}
 }
 
-func (w *world) newStream(connectOK, send bool) int {
+func (w *world) newStream(dial int, send bool) int {
 	w.host.mu.Lock()
-	w.host.fail = !connectOK
+	w.host.fail = dial
 	w.host.mu.Unlock()
 	ctx := buffer.NewBufferPoolContext(variable.NewVariableContext(context.Background()))
 	l := &lease{idx: len(w.leases), tok: len(w.leases) + 100, ctx: ctx, cli: -1}
 	_, sender, reason := w.pool.NewStream(ctx, l)
 	w.host.mu.Lock()
-	w.host.fail = false
+	w.host.fail = dialOK
 	w.host.mu.Unlock()
 	w.registerNewClients()
 	switch reason {
@@ -535,22 +570,40 @@ func (w *world) liveLeaseOn(c int) *lease {
 	return nil
 }
 
-func (w *world) connClose(c *cliRec, remote bool) {
+// connClose closes the connection of client c so that mosn reports the given close event kind:
+//   fin      the upstream closes its socket (FIN)                      -> api.RemoteClose
+//   rst      the upstream aborts the connection (SO_LINGER 0: TCP RST)  -> api.OnReadErrClose
+//   local    mosn closes: Close(NoFlush, api.LocalClose)
+//   readerr / writeerr / writetimeout   mosn closes with the event its io loops use for read errors, write errors and
+//            write time-outs: Close(NoFlush, api.OnReadErrClose / OnWriteErrClose / OnWriteTimeout)
+func (w *world) connClose(c *cliRec, how string) {
 	if c.closedMosnSide() {
 		return
 	}
 	held := w.liveLeaseOn(c.idx)
-	if remote {
+	switch how {
+	case "fin", "rst":
 		if c.up == nil {
 			return
 		}
 		c.up.mu.Lock()
 		c.up.selfClosed = true
 		c.up.mu.Unlock()
+		if how == "rst" {
+			if tc, ok := c.up.c.(*net.TCPConn); ok {
+				tc.SetLinger(0)
+			}
+		}
 		c.up.c.Close()
 		w.wait("remote-close-event", 2*time.Second, func() bool { return atomic.LoadInt32(&c.closeEvs) > 0 })
-	} else {
+	case "local":
 		c.conn.Close(api.NoFlush, api.LocalClose)
+	case "readerr":
+		c.conn.Close(api.NoFlush, api.OnReadErrClose)
+	case "writeerr":
+		c.conn.Close(api.NoFlush, api.OnWriteErrClose)
+	case "writetimeout":
+		c.conn.Close(api.NoFlush, api.OnWriteTimeout)
 	}
 	if held != nil && (w.kind == kPingPong || held.sent) {
 		w.wait("reset-after-close", time.Second, func() bool { return !held.live() })
